@@ -16,6 +16,15 @@ import PromModel.Tsdb.WalFrame
                                        to size·p/1000 for each p, then to its full size
     livecuts <seg> <c1,c2,…>           one segment, absolute prefix lengths; output per observation
     livemut <seg> <off> <mask>         LiveReader over a whole segment with one byte XOR-ed with mask
+  huge records (judge only: the op line is `<op> | <observation>`, implementation and model column `-`):
+    bigopen <pps> <mode> | ok          as `open`
+    biglog <spec,…|-> | ok             as `log`; spec = `len:seed` or the run `r<n>x<b>` = n copies of byte b
+                                       (never materialised on the Lean side; the harness writes the real record)
+    bigliveread | <recs> <status>      as `liveread`
+    bigclose | ok
+    bigread | <recs> <status>          as `read`
+    bigliveall <permille,…> | <recs> <status>
+    records are printed as `recFp`: `len:fnv1a64` below 2^19 bytes, else `len:s<byte sum>:<min byte>:<max byte>`
   outputs:
     records are printed as `len:fnv1a64` joined by `,` (`-` = none); reader status `eof` |
     `err:<class>` (Reader over segments: `err:<class>@<segment>:<offset>`).
@@ -130,6 +139,53 @@ def liveAll (segs : List Bytes) (perm : List Nat) : String :=
       | none => go rest acc
   go segs []
 
+/-! ### Huge records: fingerprints (`recFp`) with a closed form for runs of one byte -/
+
+def bigThreshold : Nat := 524288
+
+def byteSum (r : Bytes) : Nat := r.foldl (fun a x => a + x.toNat) 0
+def byteMin (r : Bytes) : Nat := r.foldl (fun a x => min a x.toNat) 255
+def byteMax (r : Bytes) : Nat := r.foldl (fun a x => max a x.toNat) 0
+
+/-- How the harness prints a record in the `big*` ops (Go: `fp`).  For a record of `bigThreshold` bytes or
+    more: length, byte sum, smallest and largest byte — `min = max = b` says every byte is `b`, so together
+    with the length this identifies a run exactly (`Prom.C13.huge_fp_identifies_run`). -/
+def recFp (r : Bytes) : String :=
+  if r.length < bigThreshold then recId r
+  else s!"{r.length}:s{byteSum r}:{byteMin r}:{byteMax r}"
+
+/-- One record of a `biglog` op. -/
+inductive Spec where
+  | gen (len seed : Nat)
+  | run (n : Nat) (b : UInt8)
+
+/-- The bytes the harness logs for a spec (used in theorems only; the judge never evaluates it on a run). -/
+def Spec.bytes : Spec → Bytes
+  | .gen l s => genRec l s
+  | .run n b => List.replicate n b
+
+/-- `recFp` of the spec's bytes, in closed form for runs (`Prom.C13.huge_fp_closed_form`). -/
+def Spec.fp : Spec → String
+  | .gen l s => recFp (genRec l s)
+  | .run n b =>
+    if n < bigThreshold then recId (List.replicate n b)
+    else s!"{n}:s{n * b.toNat}:{b.toNat}:{b.toNat}"
+
+def parseSpecs? (s : String) : Option (List Spec) :=
+  if s = "-" then some [] else
+  (s.splitOn ",").mapM fun p =>
+    if p.startsWith "r" then
+      match p.splitOn "x" with
+      | [a, b] => do
+        let n ← (String.ofList (a.toList.drop 1)).toNat?
+        let b ← b.toNat?
+        if b < 256 then pure (Spec.run n (UInt8.ofNat b)) else none
+      | _ => none
+    else
+      match p.splitOn ":" with
+      | [a, b] => do pure (Spec.gen (← a.toNat?) (← b.toNat?))
+      | _ => none
+
 def stepModel (st : St) (line : String) : St × String :=
   match toks line with
   | ["open", pps, mode] =>
@@ -209,6 +265,7 @@ def stepModel (st : St) (line : String) : St × String :=
         (st, ";".intercalate (obs.map fun o => s!"{showRecs (o.1.map recId)}/{showLStatus o.2}"))
       | none => (st, "no-segment")
     | _, _, _ => (st, "bad-op")
+  | t :: _ => if t.startsWith "big" then (st, "-") else (st, "bad-op")
   | _ => (st, "bad-op")
 
 def model (ops : List String) : List String :=
@@ -238,6 +295,50 @@ def splitOut (out : String) : Option (List String × String) :=
 structure JSt where
   written : List String := []
   live : List String := []
+
+/-- The huge-record ops: the observation is in the op line (tokens after `|`).  Same clauses as for the
+    ordinary ops — every record written comes back, in order, unchanged (length and content fingerprint),
+    `eof` and no error from the Reader; the tailing LiveReader has returned exactly the records written so
+    far after every `biglog`; a fresh LiveReader over the growing files returns them all — with the expected
+    fingerprints computed by `Spec.fp` (closed form, nothing of the size of the record is built). -/
+def bigStep (js : JSt) (k : Nat) (ts : List String) : Except String JSt :=
+  let cmd := ts.takeWhile (· ≠ "|")
+  let obs := (ts.dropWhile (· ≠ "|")).drop 1
+  let opS := " ".intercalate cmd
+  if obs.any (·.startsWith "panic") then .error s!"violation big-panic op={k} `{opS}` {" ".intercalate obs}" else
+  if obs = ["hang"] || obs = ["abandoned"] then .error s!"violation big-hang op={k} `{opS}`" else
+  let recsOf := fun (r : String) => if r = "-" then [] else r.splitOn ","
+  let firstDiff := fun (rs : List String) =>
+    (List.range (max rs.length js.written.length)).find? fun i => rs[i]? ≠ js.written[i]?
+  match cmd, obs with
+  | ["bigopen", _, _], o => if o = ["ok"] then .ok js else .error s!"violation big-open-error op={k} `{opS}`"
+  | ["bigclose"], o =>
+    if o = ["ok"] then .ok js else .error s!"violation big-close-error op={k} out={" ".intercalate o}"
+  | ["biglog", recs], o =>
+    if o ≠ ["ok"] then .error s!"violation big-log-error op={k} `{opS}` out={" ".intercalate o}" else
+    match parseSpecs? recs with
+    | some ps => .ok { js with written := js.written ++ ps.map Spec.fp }
+    | none => .error s!"violation unparsable op={k} `{opS}`"
+  | ["bigread"], [r, s] =>
+    let rs := recsOf r
+    if s ≠ "eof" then
+      .error s!"violation big-read-error op={k} status={s} got={rs.length} want={js.written.length}"
+    else if rs ≠ js.written then
+      .error s!"violation big-read-mismatch op={k} got={rs.length} want={js.written.length} firstdiff={firstDiff rs} gotfp={(firstDiff rs).bind (rs[·]?)} wantfp={(firstDiff rs).bind (js.written[·]?)}"
+    else .ok js
+  | ["bigliveread"], [r, s] =>
+    let live := js.live ++ recsOf r
+    if s ≠ "eof" then .error s!"violation big-live-corruption op={k} status={s} seen={live.length} written={js.written.length}"
+    else if live ≠ js.written then
+      .error s!"violation big-live-skip-or-dup op={k} seen={live.length} written={js.written.length}"
+    else .ok { js with live := live }
+  | ["bigliveall", _], [r, s] =>
+    let rs := recsOf r
+    if s ≠ "eof" then .error s!"violation big-liveall-corruption op={k} `{opS}` status={s} seen={rs.length} written={js.written.length}"
+    else if rs ≠ js.written then
+      .error s!"violation big-liveall-skip-or-dup op={k} `{opS}` seen={rs.length} written={js.written.length} firstdiff={firstDiff rs}"
+    else .ok js
+  | _, _ => .error s!"violation unparsable op={k} `{opS}`"
 
 def judge (ops outs : List String) : String :=
   let rec go (js : JSt) (ops outs : List String) (k : Nat) : String :=
@@ -283,6 +384,12 @@ def judge (ops outs : List String) : String :=
           let rs := obs.flatMap fun o => match o with | r :: _ => (if r = "-" then [] else r.splitOn ",") | [] => []
           if !isInfix rs js.written then s!"violation livecuts-skip-or-dup op={k} `{op}`"
           else go js ops outs (k + 1)
+      | t :: ts =>
+        if t.startsWith "big" then
+          match bigStep js k (t :: ts) with
+          | .ok js' => go js' ops outs (k + 1)
+          | .error v => v
+        else go js ops outs (k + 1)
       | _ => go js ops outs (k + 1)
     | _, _ => "ok"
   go {} ops outs 0
